@@ -205,13 +205,19 @@ def enumerate_cases(tier, seed):
             for u, algo in enumerate(ALGOS if len(lay) == 1 else (ALGOS[t % 3],)):
                 cases.append({"fam": "run", "layout": lay, "algo": algo, "pygmo_seed": 1 + (t + u) % 2,
                               "islands": 1 + ((t // 2) + u + 1) % 2})
+    # ONE Calibration object used twice: a first optimisation with OTHER boundaries for the same keys, then the parameters
+    # re-declared (attribute `parameters`) and the optimisation under test on the same object and processor
+    for t, lay in enumerate(layouts(1) + [l for i, l in enumerate(small) if len(l) == 2 and i % 9 == 0]):
+        cases.append({"fam": "run", "layout": lay, "algo": ALGOS[t % 3], "pygmo_seed": 1, "islands": 1 + t % 2,
+                      "prelude": True})
     return cases
 
 
 def expected_size(tier, seed):
+    n_prelude = 10 + len([i for i, l in enumerate(layouts(2)) if len(l) == 2 and i % 9 == 0])
     if tier == "thorough":
-        return 1110 + 110 * 3 * 2 * 2 + 124
-    return 110 + 10 * 3 + 100 + 124
+        return 1110 + 110 * 3 * 2 * 2 + 124 + n_prelude
+    return 110 + 10 * 3 + 100 + 124 + n_prelude
 
 
 # ---------------------------------------------------------------- construction
@@ -410,6 +416,8 @@ def _run_optim(case, seed, td):
 
     def bad(code, what, **extra):
         key = {"fam": "run", "code": code, "algo": algo, "islands": isl}
+        if case.get("prelude"):
+            key["prelude"] = True
         if case.get("form", "list") != "list":
             key["form"] = case["form"]
         key.update(extra)
@@ -418,7 +426,7 @@ def _run_optim(case, seed, td):
 
     dlo, dhi, llo, lhi = ref_bounds(layout, seed)
     walk, ncomp = ref_walk(layout)
-    sig = cfgx.sig(["run", layout, algo, isl, case["pygmo_seed"]])
+    sig = cfgx.sig(["run", layout, algo, isl, case["pygmo_seed"], bool(case.get("prelude"))])
     del LOG[:]
     try:
         kw = {"maxeval": 12} if algo == "nlopt" else {}
@@ -427,6 +435,13 @@ def _run_optim(case, seed, td):
         cal, proc, keys = build(layout, seed, td, form=case.get("form", "list"), pygmo_seed=pygmo_seed, num_islands=isl, num_evolutions=2,
                                 num_best_decisions=3)
         cal.algorithm = Algorithm(type=algo, generations=2 if algo != "nlopt" else 1, population_size=8, **kw)
+        if case.get("prelude"):
+            real = cal.parameters
+            other, _p, _k = build(layout, seed + 1, td, form=case.get("form", "list"))      # same keys, other boundaries
+            cal.parameters = other.parameters
+            pyxel.run_mode(cal, proc.detector, proc.pipeline, with_inherited_coords=True)
+            cal.parameters = real
+            del LOG[:]
         res = pyxel.run_mode(cal, proc.detector, proc.pipeline, with_inherited_coords=True)
         n_logged = len(LOG)
         # the simulated outputs attached to the result: one pipeline run per island with that island's champion
